@@ -26,6 +26,7 @@ const (
 	rootArr // backing array of a slice: HS_<elem>[base]
 	rootGlobal
 	rootStrArr // immutable byte array of a string value (term)
+	rootGhost  // ghost variable declared in a contract file: Ref = name, T = type
 )
 
 type Path struct {
@@ -67,6 +68,8 @@ func (p *Path) String() string {
 		sb.WriteString("glob:" + p.Glob.Name())
 	case rootStrArr:
 		sb.WriteString("str")
+	case rootGhost:
+		sb.WriteString("ghost:" + p.Ref)
 	}
 	for _, s := range p.Steps {
 		if s.IsIdx {
@@ -176,6 +179,8 @@ func (c *Ctx) heapNameOfPath(p *Path) string {
 		return n
 	case rootGlobal:
 		return globalName(p.Glob)
+	case rootGhost:
+		return p.Ref
 	}
 	return ""
 }
@@ -224,6 +229,8 @@ func (c *Ctx) rootTerm(st *State, p *Path) string {
 		return c.heap(st, globalName(p.Glob), c.sortOf(p.Glob.Type().(*types.Pointer).Elem()))
 	case rootStrArr:
 		return p.Ref
+	case rootGhost:
+		return c.heap(st, p.Ref, c.sortOf(p.T))
 	}
 	panic("bad root")
 }
@@ -240,6 +247,8 @@ func (c *Ctx) rootType(p *Path) types.Type {
 		return p.Glob.Type().(*types.Pointer).Elem()
 	case rootStrArr:
 		return types.NewArray(types.Typ[types.Uint8], 1<<40)
+	case rootGhost:
+		return p.T
 	}
 	panic("bad root")
 }
@@ -292,6 +301,9 @@ func (c *Ctx) setRoot(st *State, p *Path, term string) {
 		st.heaps[globalName(p.Glob)] = term
 	case rootStrArr:
 		panic(unsupported("store into string memory"))
+	case rootGhost:
+		c.heap(st, p.Ref, c.sortOf(p.T))
+		st.heaps[p.Ref] = term
 	}
 }
 
